@@ -222,6 +222,8 @@ def run_job(job):
                 normal = [v for v in vcs if v.kind in ("ensures", "lemma")]
                 if normal:
                     out["reachable"] = _reachable(normal)
+                elif getattr(eng, "exits", 1) == 0:
+                    out["reachable"] = False  # no path reached the end of the function: contradictory precondition
                 out["vcs"] = [VCRec(v) for v in vcs]
                 out["assumptions"] = sorted(eng.assumptions_used)
                 out["inlined"] = sorted(eng.inlined)
@@ -239,6 +241,58 @@ def run_job(job):
     return out
 
 
+def _child(job, conn):
+    try:
+        conn.send(run_job(job))
+    except BaseException:
+        conn.send({"job": job, "vcs": [], "canary": [], "undecided": None, "assumptions": [], "inlined": [], "paths": 0,
+                   "function": None, "reachable": True, "error": traceback.format_exc(), "target": str(job[1]), "wall": 0})
+    finally:
+        conn.close()
+
+
+def run_jobs(joblist, nproc, limit_s):
+    """One forked process per job, at most nproc at a time, each killed at a hard wall-clock limit
+    (a killed job is *undecided*, never a violation)."""
+    ctx = mp.get_context("fork")
+    pending = list(enumerate(joblist))
+    running = {}
+    results = [None] * len(joblist)
+    while pending or running:
+        while pending and len(running) < nproc:
+            i, job = pending.pop(0)
+            pr, pw = ctx.Pipe(duplex=False)
+            p = ctx.Process(target=_child, args=(job, pw))
+            p.start()
+            pw.close()
+            running[i] = (p, pr, time.time(), job)
+        time.sleep(0.05)
+        for i in list(running):
+            p, pr, t0, job = running[i]
+            if pr.poll():
+                try:
+                    results[i] = pr.recv()
+                except EOFError:
+                    results[i] = {"job": job, "vcs": [], "canary": [], "undecided": None, "assumptions": [], "inlined": [], "paths": 0,
+                                  "function": None, "reachable": True, "error": "worker died", "target": str(job[1]), "wall": time.time() - t0}
+                p.join()
+                del running[i]
+            elif not p.is_alive():
+                p.join()
+                results[i] = {"job": job, "vcs": [], "canary": [], "undecided": None, "assumptions": [], "inlined": [], "paths": 0,
+                              "function": None, "reachable": True, "error": "worker exited with code %s" % p.exitcode, "target": str(job[1]), "wall": time.time() - t0}
+                del running[i]
+            elif time.time() - t0 > limit_s:
+                p.kill()
+                p.join()
+                os.system("pkill -P %d 2>/dev/null" % p.pid)
+                results[i] = {"job": job, "vcs": [], "canary": [], "undecided": "job exceeded the wall-clock limit of %ds (solver budget)" % limit_s,
+                              "assumptions": [], "inlined": [], "paths": 0, "function": None, "reachable": True, "error": None,
+                              "target": str(job[1]), "wall": time.time() - t0}
+                del running[i]
+    return results
+
+
 def run_property(prop, tier="quick", repo_root=None, verbose=False, jobs=None):
     global _WORLD
     t0 = time.time()
@@ -248,12 +302,7 @@ def run_property(prop, tier="quick", repo_root=None, verbose=False, jobs=None):
               "inlined": set(), "canaries": [], "npaths": 0, "unreachable": [], "errors": []}
     joblist = jobs_for(world, prop)
     nproc = jobs or int(os.environ.get("PYVC_JOBS", "0")) or min(16, os.cpu_count() or 4)
-    if nproc > 1 and len(joblist) > 1:
-        ctx = mp.get_context("fork")
-        with ctx.Pool(min(nproc, len(joblist))) as pool:
-            results = pool.map(run_job, joblist, chunksize=1)
-    else:
-        results = [run_job(j) for j in joblist]
+    results = run_jobs(joblist, nproc, float(os.environ.get("PYVC_JOB_LIMIT_S", "1500" if tier == "thorough" else "420")))
     obligations = {}
     for r in results:
         if r["error"]:
